@@ -403,6 +403,21 @@ func runShutScn(s *ShutScn) (o vh.Outcome) {
 	latency := 0
 	if s.Phase == "failing" {
 		listsFail.Store(true)
+		// the poll that was in flight still returns normally; wait until the agent has met the first failures
+		failing := false
+		for deadline := time.Now().Add(10 * time.Second); time.Now().Before(deadline) && !failing; time.Sleep(2 * time.Millisecond) {
+			n := 0
+			for _, c := range fp.ListCalls() {
+				if c.Status == http.StatusInternalServerError {
+					n++
+				}
+			}
+			failing = n >= 2
+		}
+		if !failing {
+			o.Inconclusive = "the agent did not poll again after the proxy started failing"
+			return
+		}
 	} else if s.Phase != "idle" {
 		path := "/slow"
 		if s.Phase != "backend" {
